@@ -501,6 +501,21 @@ func c13Child(t *tr.Writer, e *callsEnv, c callsCase) {
 			}
 			t.Emit(tr.Rec{"ev": "ret", "kind": errKind(err), "detail": d})
 		}
+		// far above the limit and more than the socket buffers hold: the client is still writing when the
+		// service has made up its mind (the race is lost often, not always: several times)
+		if c.Kind != "udp" {
+			for k := 0; k < 3; k++ {
+				n := 3<<20 + k // (below 4 MiB: a fasthttp.Server refuses more than that by itself)
+				payload := append([]byte("RAW:"), pattern("random", n-4, c.Seed+int64(k))...)
+				t.Emit(tr.Rec{"ev": "req", "n": n, "limit": limit, "decl": "truthful"})
+				_, err := rawRequest(cl, payload)
+				d := ""
+				if err != nil {
+					d = err.Error()
+				}
+				t.Emit(tr.Rec{"ev": "ret", "kind": errKind(err), "detail": d})
+			}
+		}
 		// the limit is lowered while the client's connection is established: it holds for the next request
 		if half := limit / 2; half >= 16 {
 			// (a refused request ends its connection: a small request first, so that a connection is
@@ -668,6 +683,13 @@ func c11Child(t *tr.Writer, e *callsEnv, c callsCase) {
 			if strings.HasPrefix(what, p) {
 				return true
 			}
+		}
+		// a request that one datagram cannot carry is refused before anything is sent: no frame, no peer and
+		// no connection is at fault, so it is the call's own error. (An oversized response is different: the
+		// service answers with an error-flagged datagram, which the client takes as the end of the connection -
+		// the property allows that.)
+		if c.Kind == "udp" && what == "request-beyond-transport" {
+			return true
 		}
 		return false
 	}
